@@ -33,7 +33,7 @@ type WOp struct {
 }
 
 var WriteKinds = []string{
-	"create", "create_slice", "create_ptr_slice", "create_batches", "create_map",
+	"create", "create_slice", "create_ptr_slice", "create_batches", "create_map", "create_lang", "create_langs", "update_lang", "create_memo", "save_memo",
 	"save", "save_slice",
 	"update", "updates_struct", "updates_ptr", "updates_map", "updates_assoc", "updates_self", "update_column", "update_columns",
 	"delete", "delete_pet", "delete_select", "delete_where", "delete_slice",
@@ -117,6 +117,19 @@ func (op *WOp) Exec(db *gorm.DB) (res Result) {
 		return done(db.Create(&us))
 	case "create_map":
 		return done(db.Model(&fam.User{}).Create(map[string]interface{}{"Name": op.Str, "Age": op.Int}))
+	case "create_memo":
+		// a model whose only hook has a value receiver
+		return done(db.Create(&fam.Memo{Text: op.Str}))
+	case "save_memo":
+		return done(db.Save(&fam.Memo{Text: op.Str}))
+	case "create_lang":
+		// a model without relationships whose only hooks are BeforeSave / AfterSave
+		return done(db.Create(&fam.Language{Code: "n" + op.Str, Name: op.Str}))
+	case "create_langs":
+		ls := []fam.Language{{Code: "a" + op.Str, Name: op.Str}, {Code: "b" + op.Str, Name: op.Str}}
+		return done(db.Create(&ls))
+	case "update_lang":
+		return done(db.Model(&fam.Language{Code: "en"}).Update("name", op.Str))
 	case "save":
 		us := build()
 		res.Roots, res.Value = us, us[0]
